@@ -61,8 +61,8 @@ class SWITCH:
         if n <= 1:
             return NOT_AVAILABLE
         npairs = n // 2
-        for i in range(0, 3):
-            if i < npairs and target_value == args[2 * i]:
+        for i in range(0, npairs):
+            if target_value == args[2 * i]:
                 return args[2 * i + 1]
         if n % 2 == 1:
             return args[n - 1]
@@ -77,12 +77,11 @@ class IFS:
 
     def spec(args):
         n = len(args) // 2
-        for i in range(0, 3):
-            if i < n:
-                if is_err(args[2 * i]):
-                    return args[2 * i]
-                if truth(args[2 * i]):
-                    return args[2 * i + 1]
+        for i in range(0, n):
+            if is_err(args[2 * i]):
+                return args[2 * i]
+            if truth(args[2 * i]):
+                return args[2 * i + 1]
         return NOT_AVAILABLE
 
 
